@@ -360,11 +360,75 @@ def explore_stream(st: Stream, flavours: t.List[str]) -> evid.Local:
     return loc
 
 
+def _bystander_run(st: Stream, s: bytes, cuts: t.List[int], want: t.List[str], phase: int = 0) -> t.Optional[t.Tuple[str, str]]:
+    """The bystander alternates: first half of a message of its own (a delivery that ends inside a message, with no residue
+    before it), then the rest of it (a delivery that ends exactly on a boundary); `phase` skips its first turns."""
+    if st.role == "server":
+        others = [L.ExtendedRequest(9 + i, [], "1.3.6.1.4.1.1466.20037", b"bystander-value-%d" % i).pack(K.OPTS) for i in range(3)]
+    else:
+        others = [L.ExtendedResponse(1 + i, [], L.LDAPResult(L.LDAPResultCode.SUCCESS, "", "", None), "1.2.3", b"bystander-value-%d" % i).pack(K.OPTS) for i in range(3)]
+    by = L.LDAPServer() if st.role == "server" else L.LDAPClient()
+    if st.role == "client":
+        for _ in others:
+            by.extended_request("1.2")
+        by.data_to_send()
+    pieces = [p for o in others for p in (o[: len(o) // 2], o[len(o) // 2 :])]
+    me = session_for(st)
+    got: t.List[str] = []
+    rest: t.List[t.Any] = []
+    turn = 0
+    try:
+        for idx, (lo, hi) in enumerate(zip(cuts, cuts[1:])):
+            got += [A.src(m) for m in me.receive(s[lo:hi])]
+            if idx >= phase and turn < len(pieces):
+                rest += by.receive(pieces[turn])
+                turn += 1
+        while turn < len(pieces):
+            rest += by.receive(pieces[turn])
+            turn += 1
+    except BaseException as e:  # noqa: BLE001
+        return (f"bystander:raises:{type(e).__name__}", f"with a second live session receiving between the chunks {cuts} (from chunk {phase + 1} on): {type(e).__name__}: {e}")
+    if got != want:
+        kind = "lost" if len(got) < len(want) else "duplicated" if len(got) > len(want) else "altered"
+        return (f"bystander:messages-{kind}", f"with a second live session receiving between the chunks {cuts} (from chunk {phase + 1} on), {len(got)} messages came out, a single delivery gives {len(want)}")
+    if [m.value for m in rest] != [b"bystander-value-%d" % i for i in range(3)]:
+        return ("bystander:other-session-damaged", f"the second session's own messages came out as {[A.src(m) for m in rest]} (chunks of the first: {cuts})")
+    return None
+
+
+def bystander_stream(st: Stream) -> evid.Local:
+    """The same session objects from start to end (no copies), and a second live session of the same class that receives
+    half a PDU of its own between any two deliveries to the first: whatever holds the residue (a pooled or shared buffer, a
+    class-level scratch area) must belong to one session.  Every partition of the stream into <= 3 chunks with cuts in the
+    column set; the bystander's own message must come out intact as well."""
+    loc = evid.Local()
+    s = st.data()
+    n = len(s)
+    units, _ = ber.frame(s)
+    ends = [e for _s, e in units]
+    case = st.describe()
+    expect = session_for(st).receive(s)
+    want = [A.src(m) for m in expect]
+    cols = column_set(n, ends, n > 60)
+    for a in cols:
+        for b in (c for c in cols if c >= a):
+            cuts = sorted({0, a, b, n})
+            for phase in (0, 1, 2):
+                loc.add("transitions", len(cuts) - 1)
+                r = _bystander_run(st, s, cuts, want, phase)
+                if r:
+                    loc.violation(r[0], r[1], {**case, "cuts": cuts, "bystander": True, "phase": phase})
+    loc.distinct.add(("bystander", st.role, st.note, n))
+    return loc
+
+
 _X: t.Dict[str, t.Any] = {}
 
 
 def _work(job: t.Tuple[int, str]) -> evid.Local:
     st = _X["streams"][job[0]]
+    if job[1] == "bystander":
+        return bystander_stream(st)
     return explore_stream(st, [job[1]])
 
 
@@ -379,6 +443,11 @@ def run(ctx: evid.Ctx) -> None:
             if 200 < n <= SPARSE_ABOVE and fl != "bytes" and not thorough:
                 continue
             jobs.append((i, fl))
+    # two live sessions: streams of >= 2 messages in the library's own encoding, shortest first
+    multi = sorted((i for i, st in enumerate(streams) if len(st.msgs) >= 2 and st.encoding == "lib" and st.tail == 0 and len(st.data()) <= 400), key=lambda i: len(streams[i].data()))
+    picked = [i for r in ("client", "server") for i in [j for j in multi if streams[j].role == r][: (12 if thorough else 4)]]
+    jobs += [(i, "bystander") for i in picked]
+    ctx.note("bystander_streams", [len(streams[i].data()) for i in picked])
     jobs.sort(key=lambda j: -len(streams[j[0]].data()))
     for loc in par.pmap(_work, jobs, ctx.seed):
         evid.absorb(ctx, loc)
@@ -405,6 +474,9 @@ def run(ctx: evid.Ctx) -> None:
 def replay(case: t.Dict[str, t.Any], key: t.Optional[str] = None) -> t.Tuple[bool, str]:
     st = Stream(case["role"], case["prelude"], [A.unsrc(m) for m in case["msgs"]], case["tail"], "replay", case.get("encoding", "lib"))
     s = st.data()
+    if case.get("bystander"):
+        r = _bystander_run(st, s, case["cuts"], [A.src(m) for m in session_for(st).receive(s)], case.get("phase", 0))
+        return (r is None), (f"  {r[0]}: {r[1]}" if r else f"  chunks {case['cuts']} with a second live session in between: all messages intact")
     cuts = [0] + [c for c in case["cuts"] if c] + [len(s)]
     fl = case.get("flavour", "bytes")
     one = session_for(st)
